@@ -474,6 +474,7 @@ func runFlt(f []string) core.Outcome {
 		emitted = encodeJSON(out)
 	}
 	fltOracle(&o, fs, v, out, outStrings, emitted)
+	caddyfileOracle(&o, fs)
 	return o
 }
 
